@@ -65,24 +65,35 @@ def showSym (m : SymMap) : String :=
   let mp := (m.map.map fun (k, v) => s!"{k}={v}").toArray.qsort (· < ·) |>.toList
   s!"values=[{",".intercalate m.values}] map=[{",".intercalate mp}] shadowed={m.fl.shadowed} free={m.fl.free}"
 
-partial def unitLoop (h : IO.FS.Stream) (m : SymMap) : IO Unit := do
+partial def unitLoop (h : IO.FS.Stream) (m : SymMap) (marks : List Nat := []) : IO Unit := do
   let l ← h.getLine
   if l.isEmpty then return ()
   match (l.trimAscii.toString.splitOn " ").filter (· ≠ "") with
-  | ["reset"] => IO.println "reset"; unitLoop h {}
-  | ["add", n] => let (m', i) := m.add n; IO.println (toString i); unitLoop h m'
+  | ["reset"] => IO.println "reset"; unitLoop h {} []
+  | ["add", n] => let (m', i) := m.add n; IO.println (toString i); unitLoop h m' marks
   | ["get", n] =>
-      IO.println (match m.get n with | some i => toString i | none => "err"); unitLoop h m
-  | ["len"] => IO.println (toString m.values.length); unitLoop h m
-  | ["rollback", n] => IO.println "ok"; unitLoop h (m.rollBack n.toNat!)
+      IO.println (match m.get n with | some i => toString i | none => "err"); unitLoop h m marks
+  | ["len"] => IO.println (toString m.values.length); unitLoop h m marks
+  | ["rollback", n] => IO.println "ok"; unitLoop h (m.rollBack n.toNat!) marks
   | ["free", k] =>
-      IO.println "ok"; unitLoop h { m with fl := { m.fl with free := m.fl.free ++ [k.toNat!] } }
-  | ["state"] => IO.println (showSym m); unitLoop h m
-  | _ => IO.println "bad"; unitLoop h m
+      IO.println "ok"; unitLoop h { m with fl := { m.fl with free := m.fl.free ++ [k.toNat!] } } marks
+  | "recycle" :: live =>
+      -- a recycler run: every shadowed slot stops being a candidate; those not listed as live are reclaimed
+      let keep := live.filterMap String.toNat?
+      let dead := m.fl.shadowed.filter (fun s => !keep.contains s)
+      IO.println "ok"; unitLoop h { m with fl := { m.fl with shadowed := [], free := m.fl.free ++ dead } } marks
+  | ["mark"] => IO.println (toString m.values.length); unitLoop h m (m.values.length :: marks)
+  | ["rollbackmark"] =>
+      IO.println "ok"
+      match marks with
+      | k :: rest => unitLoop h (m.rollBack k) rest
+      | [] => unitLoop h m []
+  | ["state"] => IO.println (showSym m); unitLoop h m marks
+  | _ => IO.println "bad"; unitLoop h m marks
 
 def mainC06 (args : List String) : IO Unit := do
   match args with
-  | ["unit"] => unitLoop (← IO.getStdin) {}
+  | ["unit"] => unitLoop (← IO.getStdin) {} []
   | _ => histLoop (← IO.getStdin) {} {}
 
 end SteelVerif.C06
